@@ -437,13 +437,13 @@ def _task_lookup(task):
 
 # ----------------------------------------------------------------------------- consumer level (documents)
 def selector_params():
-    """Fields decoded by every root: A u2, S s3(signed), F f16, C u2+poly(0.5x), E enum u2, T str8, B bool u1, P0..P4 u1."""
+    """Fields decoded by every root: A u2, S s3(signed), F f16, C u2+poly(0.5x), E enum u2 (labels a, b, ab, 'a '), T str8, B bool u1, P0..P4 u1."""
     pts = header_ptypes() + (
         PType("A_T", "Integer", IntEnc(2)),
         PType("S_T", "Integer", IntEnc(3, "signed")),
         PType("F_T", "Float", FloatEnc(16)),
         PType("C_T", "Integer", IntEnc(2, default_cal=Poly(((0.5, 1),)))),
-        PType("E_T", "Enumerated", IntEnc(2), enum=((0, "a"), (1, "b"), (2, "ab"), (3, "zero"))),
+        PType("E_T", "Enumerated", IntEnc(2), enum=((0, "a"), (1, "b"), (2, "ab"), (3, "a "))),   # the last label differs from the first by a trailing blank
         PType("T_T", "String", StrEnc(Fixed(8), "US-ASCII")),
         PType("B_T", "Boolean", IntEnc(1)),
         PType("P_T", "Integer", IntEnc(1)),
@@ -480,6 +480,8 @@ def consumer_packets():
     for f in f16:
         combos.append((1, 1, f, 2, 0, "b", 1, (1, 0, 1, 0, 1)))
     combos.append((0, 0, 0.0, 0, 0, "a", 0, (0, 0, 0, 0, 0)))
+    combos.append((1, 1, 0.0, 1, 3, " ", 1, (1, 0, 1, 0, 1)))   # a blank as the text field, the blank-padded enumeration label
+    combos.append((3, 0, 2.0, 3, 3, "a", 0, (0, 1, 1, 0, 0)))
     combos.append((2, 2, 2.0, 2, 2, "b", 1, (1, 1, 1, 1, 1)))
     for a, s, f, c, e, tx, b, ps in combos:
         bits = (format(a, "02b") + format(s, "03b") + format(f16[f], "016b") + format(c, "02b") + format(e, "02b")
@@ -531,6 +533,20 @@ def consumer_criteria(tier):
             crits.append((BoolExpr(Cond("E", "==" if op in ("==", "!=") else "!=", right_param="E", left_cal=lc, right_cal=lc)),))
         crits.append((BoolExpr(Cond("E", op, right_value="a", right_cal=False)),))
         crits.append((BoolExpr(Cond("E", op, right_value="1", left_cal=False, right_cal=False)),))
+    # text values whose leading / trailing blanks are significant
+    for op in ("==", "!="):
+        for val in ("a ", " a", " ", "a", ""):
+            crits.append((BoolExpr(Cond("E", op, right_value=val, right_cal=False)),))
+            crits.append((BoolExpr(Cond("T", op, right_value=val, right_cal=False)),))
+            if val:
+                crits.append((Cmp("E", op, val),))
+                crits.append((Cmp("T", op, val),))
+    # groups that alternate four and five levels deep
+    leaf = lambda n, v="1": Cond(n, "==", right_value=v, right_cal=False)  # noqa: E731
+    deep_or = Or((leaf("A", "3"),), (And((leaf("B"),), (Or((leaf("P0"),), (And((leaf("P1"), leaf("P2")), (Or((leaf("P3"), leaf("P4")),),)),)),)),))
+    deep_and = And((leaf("B"),), (Or((leaf("P0"),), (And((leaf("P1"),), (Or((leaf("P2"),), (And((leaf("P3"), leaf("P4")),),)),)),)),))
+    crits.append((BoolExpr(deep_or),))
+    crits.append((BoolExpr(deep_and),))
     # trees
     maxl = 3 if tier == "quick" else 4
     for n in range(1, maxl + 1):
